@@ -309,3 +309,59 @@ Section Complete.
     apply Hj. rewrite N.sub_0_r. unfold nn. rewrite N2Nat.id. lia.
   Qed.
 End Complete.
+
+(* ---------------------------------------------------------------------------------------------- *)
+(* relational (frame) version: every access is related by a preorder, so is the loop *)
+Section Rel.
+  Variable g : geom.
+  Context {A : Type}.
+  Variable access : upper -> N -> res A * upper.
+  Variable R : upper -> upper -> Prop.
+  Hypothesis Rrefl : forall u, R u u.
+  Hypothesis Rtrans : forall u1 u2 u3, R u1 u2 -> R u2 u3 -> R u1 u3.
+  Hypothesis Hacc : forall u i r u', access u i = (r, u') -> R u u'.
+
+  Lemma sb_try_rel cands : forall u r u', sb_try access u cands = (r, u') -> R u u'.
+  Proof.
+    induction cands as [|[k i] rest IH]; intros u r u' H; cbn [sb_try] in H.
+    - inversion H; subst. apply Rrefl.
+    - destruct (access u i) as [ra u1] eqn:E. pose proof (Hacc _ _ _ _ E) as H1.
+      destruct ra as [x|e|s]; [inversion H; subst; exact H1| |inversion H; subst; exact H1].
+      destruct e; try (inversion H; subst; exact H1). eauto.
+  Qed.
+
+  Lemma sb_loop_rel rate cap k : forall u start i best r u',
+    sb_loop g access rate cap u start i k best = (r, u') -> R u u'.
+  Proof.
+    induction k as [|k IH]; intros u start i best r u' H; cbn [sb_loop] in H.
+    - eapply sb_try_rel; eauto.
+    - destruct (tree_at u (walk_idx start (ntrees u) i)) as [t|]; [|inversion H; subst; apply Rrefl].
+      destruct (t_res t); [eauto|].
+      destruct (rate (t_class t) (t_free t)) as [m| | |] eqn:Er; eauto.
+      destruct m as [|p]; eauto.
+      repeat (destruct p as [p|p|]; eauto).
+      destruct (access u (walk_idx start (ntrees u) i)) as [ra u1] eqn:E.
+      pose proof (Hacc _ _ _ _ E) as H1.
+      destruct ra as [x|e|s]; [inversion H; subst; exact H1| |inversion H; subst; exact H1].
+      destruct e; try (inversion H; subst; exact H1). eauto.
+  Qed.
+
+  Lemma search_best_rel rate cap u start offset len r u' :
+    search_best g access rate cap u start offset len = (r, u') -> R u u'.
+  Proof.
+    unfold search_best. destruct ((0 <? len - offset) && (ntrees u =? 0)).
+    - intros H; inversion H; subst. apply Rrefl.
+    - apply sb_loop_rel.
+  Qed.
+
+  Lemma search_loop_rel k : forall u start i r u',
+    search_loop access u start i k = (r, u') -> R u u'.
+  Proof.
+    induction k as [|k IH]; intros u start i r u' H; cbn [search_loop] in H.
+    - inversion H; subst. apply Rrefl.
+    - destruct (access u (walk_idx start (ntrees u) i)) as [ra u1] eqn:E.
+      pose proof (Hacc _ _ _ _ E) as H1.
+      destruct ra as [x|e|s]; [inversion H; subst; exact H1| |inversion H; subst; exact H1].
+      destruct e; try (inversion H; subst; exact H1). eauto.
+  Qed.
+End Rel.
